@@ -53,7 +53,7 @@ var (
 	fx     *fixture
 )
 
-var baseVariants = []string{"plain", "plugin", "plugin-minver", "timestamp", "sa", "expiry", "expired", "crit-unknown", "annotations", "rsa"}
+var baseVariants = []string{"plain", "plugin", "plugin-minver", "timestamp", "sa", "expiry", "expired", "crit-unknown", "crit-int-label", "annotations", "rsa"}
 
 func (f *fixture) payload(kind string, ann map[string]string) []byte {
 	if kind == "oci" {
@@ -101,6 +101,14 @@ func fixtures() *fixture {
 						spec.Expiry = now.Add(-time.Minute)
 					case "crit-unknown":
 						spec.Ext = []envb.Attr{{Key: envb.AttrPlugin, Critical: true, Value: pluginName}, {Key: "c12.custom", Critical: true, Value: "v"}}
+					case "crit-int-label":
+						// a critical extended attribute whose label is an integer (COSE allows it; in JWS every
+						// header name is a string, so there the variant equals crit-unknown with another key)
+						var key any = "c12.custom.2"
+						if format == envb.MTCOSE {
+							key = int64(99)
+						}
+						spec.Ext = []envb.Attr{{Key: envb.AttrPlugin, Critical: true, Value: pluginName}, {Key: key, Critical: true, Value: "v"}}
 					case "annotations":
 						spec.Payload = f.payload(kind, map[string]string{"env": "prod", "io.wabbit-networks.buildId": "123"})
 						spec.Agent = "c12-agent/1.0"
